@@ -611,6 +611,36 @@ def check_append(facts, rep, crate):
             rep.bad("C09.R7", "append-only", where, "extend appends %s, not the caller's data" % fmt(arg))
     else:
         rep.bad("C09.R7", "append-only", where, "frame buffer mutated by %s" % [m[1] for m in muts])
+    # total on every Push encoding: a length test on the way to the append accepts a header-only frame (1 + 4 octets: empty payload)
+    if ext:
+        import operator as _op
+        OPS = {"Gt": _op.gt, "Ge": _op.ge, "Lt": _op.lt, "Le": _op.le, "Eq": _op.eq, "Ne": _op.ne}
+        nlen = 0
+        for bb in range(len(b.blocks)):
+            if b.term(bb)["k"] != "SwitchInt" or ext[0][0] not in b.reachable_from(bb):
+                continue
+            g = guard_at(facts, b, tr, bb)
+            if g is None or g.kind != "bool":
+                continue
+            p_ = strip(g.pred)
+            if p_.kind != "bin" or p_[1] not in OPS:
+                continue
+            l_, r_ = strip(p_[2]), strip(p_[3])
+            islen = lambda x: x.kind == "call" and x[6] == "len" and any(y.kind == "param" and y[1] == 1 for y in walk(x))
+            if islen(l_) and const_eval(r_) is not None:
+                val = lambda n: OPS[p_[1]](n, const_eval(r_))
+            elif islen(r_) and const_eval(l_) is not None:
+                val = lambda n: OPS[p_[1]](const_eval(l_), n)
+            else:
+                continue
+            nlen += 1
+            rejected = [n for n in (5, 6, 7, 64, 65540) if not any(v == val(n) and (succ == ext[0][0] or ext[0][0] in b.reachable_from(succ)) for succ, v in g.edges)]
+            if rejected:
+                rep.bad("C09.R7", "total-on-push-encodings", "%s (%s)" % (loc_str(b.term(bb)["loc"]), b.path),
+                        "a length test `%s` keeps valid Push encodings of %s octets away from the append (a Push with an empty payload is "
+                        "exactly 5 octets): appending to them panics instead of producing the encoding of push(id, a ++ b)" % (fmt(p_)[:80], rejected))
+        if nlen == 0:
+            rep.ok("C09.R7", "total-on-push-encodings", where, "no length test on the way to the append", nontrivial=False)
     # opcode check dominates the extend
     okc = False
     for bi, t in b.calls():
